@@ -29,22 +29,23 @@ import (
 )
 
 type c11World struct {
-	t       *rapid.T
-	c       *client.Client
-	dir     string
-	dev     ref.Key
-	gca     ref.Key
-	sink    *world.UDPSink
-	fakes   []*world.FakeServer
-	keys    [][32]byte // all configured server keys (fake and dead)
-	fakeOf  map[[32]byte]*world.FakeServer
-	queue   map[[32]byte][]string // per server: outcomes for the next connections
-	hist    []string
-	slot    uint32
-	energy  strings.Builder
-	emitted int
-	ticks   int
-	odd     bool // a round saw a non-dial failure / all-failed / signed-but-malformed reply
+	t            *rapid.T
+	c            *client.Client
+	dir          string
+	dev          ref.Key
+	gca          ref.Key
+	sink         *world.UDPSink
+	fakes        []*world.FakeServer
+	keys         [][32]byte // all configured server keys (fake and dead)
+	fakeOf       map[[32]byte]*world.FakeServer
+	queue        map[[32]byte][]string // per server: outcomes for the next connections
+	hist         []string
+	slot         uint32
+	energy       strings.Builder
+	emitted      int
+	ticks        int
+	odd          bool     // a round saw a non-dial failure / all-failed / signed-but-malformed reply
+	lastAnswered [32]byte // the server whose reply the last successful round accepted
 }
 
 func (w *c11World) fail(format string, a ...interface{}) {
@@ -150,6 +151,20 @@ func (w *c11World) action(f *world.FakeServer, outcome string, t *rapid.T) world
 			}
 		}
 		return world.Action{Kind: "raw", Raw: world.Frame(w.validReply(f, entries).Encode())}
+	case "valid-ban-self":
+		// a valid reply in which the contacted server itself is listed as banned
+		// (an honest server that the GCA has banned says so), optionally with others
+		e := ref.AuthServer{PublicKey: f.Key.Pub, Banned: true, Location: "127.0.0.1", TcpPort: f.Port, UdpPort: w.sink.Port}
+		e.Sig = ref.Sign(w.gca, e.SigningBytes())
+		entries := []ref.AuthServer{e}
+		for _, k := range w.keys {
+			if k != f.Key.Pub && rapid.IntRange(0, 3).Draw(t, "banOtherToo") == 0 {
+				o := ref.AuthServer{PublicKey: k, Banned: true, Location: "127.0.0.1", TcpPort: 1, UdpPort: w.sink.Port}
+				o.Sig = ref.Sign(w.gca, o.SigningBytes())
+				entries = append(entries, o)
+			}
+		}
+		return world.Action{Kind: "raw", Raw: world.Frame(w.validReply(f, entries).Encode())}
 	case "valid-unban-attempt":
 		var entries []ref.AuthServer
 		for _, k := range w.keys {
@@ -163,7 +178,7 @@ func (w *c11World) action(f *world.FakeServer, outcome string, t *rapid.T) world
 	}
 }
 
-var c11Outcomes = []string{"close", "reset", "short-prefix", "short-body", "refusal-byte", "stall-then-close", "len-lt-72", "signed-72-711", "signed-large", "random-bytes", "bad-signature", "stale-timestamp", "wrong-device", "bad-entry", "truncated-entry", "valid-ban-other", "valid-unban-attempt", "valid", "valid"}
+var c11Outcomes = []string{"close", "reset", "short-prefix", "short-body", "refusal-byte", "stall-then-close", "len-lt-72", "signed-72-711", "signed-large", "random-bytes", "bad-signature", "stale-timestamp", "wrong-device", "bad-entry", "truncated-entry", "valid-ban-other", "valid-ban-self", "valid-unban-attempt", "valid", "valid"}
 
 func c11Failing(o string) bool {
 	return !strings.HasPrefix(o, "valid")
@@ -345,6 +360,7 @@ func (w *c11World) round(t *rapid.T) {
 				nonDial = true
 			} else {
 				succeeded = o
+				w.lastAnswered = f.Key.Pub
 			}
 		}
 	}
@@ -413,6 +429,15 @@ func (w *c11World) tickEmits() {
 	}
 	if ps := client.VerifPanics(); len(ps) > 0 {
 		w.fail("client goroutine panicked: %s: %s", ps[0].Where, ps[0].Value)
+	}
+	if havePrim && prim.Banned && [32]byte(st.Primary) == w.lastAnswered {
+		// The selected server announced its OWN ban in the reply of the last
+		// round: the ban became known after the selection. The property speaks
+		// of selecting; whether the client keeps using that server until its
+		// next round is not judged (the code does), only that the tick happens.
+		w.sink.Settle(3 * time.Millisecond)
+		ev.Label("c11:tick-after-self-ban-unjudged")
+		return
 	}
 	if !usable {
 		// every configured server is known as banned (or none is selected):
